@@ -268,11 +268,17 @@ func judgeFields(src string) *eng.Fail {
 	for c := range fs.called {
 		keep[c] = true
 	}
-	for variant := 0; variant < 2; variant++ {
+	for variant := 0; variant < 3; variant++ {
 		full := c10Data(variant)
-		want := evalShow(p.src.Expression, full)
 		restricted := c10Data(variant)
 		perturbed := c10Data(variant)
+		if variant == 2 {
+			// no pre-set local: what the formula reads from $l is what it bound itself (or null)
+			delete(full, "$l")
+			delete(restricted, "$l")
+			delete(perturbed, "$l")
+		}
+		want := evalShow(p.src.Expression, full)
 		for k := range restricted {
 			if !keep[k] {
 				delete(restricted, k)
@@ -284,6 +290,28 @@ func judgeFields(src string) *eng.Fail {
 		}
 		if got := evalShow(p.src.Expression, perturbed); got != want {
 			return eng.F("C10/insufficient", "%s: reported %v but changing other names changes the result: %s vs %s", src, fields, want, got)
+		}
+		if len(restricted) == 0 {
+			// no reported name is present at all: a runner that never received a data map (after another such
+			// runner has bound the locals this formula mentions) agrees on every reported field as well
+			other := formula.NewRunner()
+			if pre, err := cachedParse("$l = 'stale', $b = 'stale', $t = 'stale', $T = 'stale'"); err == nil {
+				safeResolve(other, bg, pre.Expression)
+			}
+			bare := formula.NewRunner()
+			o := safeResolve(bare, bg, p.src.Expression)
+			got := ""
+			switch {
+			case o.panicked:
+				got = "panic: " + o.panicMsg
+			case o.err != nil:
+				got = "error: " + o.err.Error()
+			default:
+				got = showDeep(o.val)
+			}
+			if got != want {
+				return eng.F("C10/insufficient", "%s: reported %v, none of them present: a runner without data map gives %s, a runner with an empty-equivalent map %s", src, fields, got, want)
+			}
 		}
 	}
 	return nil
@@ -396,6 +424,19 @@ func runC10(w *eng.W) {
 			w.Sample("formulas", src)
 			c10Fields.Do(w, SrcCase{Src: Bytes(src)})
 		}
+	}
+	// name sets: sums of names that repeat, differ only in case, or are prefixes of each other, in every order
+	names := []string{"Total", "total", "TOTAL", "a", "A", "ab", "a.b", "a.B", "$t", "$T", "a.b.c", "Total.x"}
+	for l := 1; l <= 4; l++ {
+		seqsSharded(w, len(names), l, func(idx []int) {
+			src := joinIdx(names, idx, " + ")
+			w.State(1)
+			w.Trans(1)
+			w.Trace(1)
+			w.Note("leg:name-sets", 1)
+			w.Sample("name-sets", string(src))
+			c10Fields.Do(w, SrcCase{Src: append(Bytes(nil), src...)})
+		})
 	}
 	// an analysis that is refused part-way (names already collected) followed by an ordinary one
 	firsts := []string{"leaked + other.path + this.b", "a + (b).c", "[first, (second).k, third]", "f(x, (y).z)", "$l = q, 's'.b", "p ? q : [r].s", "typeof u, f(v).w", "ok1 + ok2"}
